@@ -103,4 +103,18 @@ def plan(tier):
              data='pushed values and exception tags: unconstrained 32-bit ints (symbolic)',
              bounds='<= %d operations after start, <= %d pops' % (cls, max(cws)), outside=common_out),
     ]
+    from speclib import histories
+    conc = []
+    for npre in range(0, 3):
+        for pre in histories(2, npre, npre):
+            for a in (0, 1, 2):
+                for b in (0, 1, 2):
+                    for k in (0, 1, 2):
+                        conc.append([npre] + pre + [a, b, k])
+    units.append(dict(engine='e1', name='q_conc', tu='C09conc.cpp', entry='h_q_conc', unwind=14, vectors=conc,
+                      concrete=[([1, 0, 1, 0, 0], list(range(1, 11))), ([2, 1, 1, 0, 2, 1], list(range(1, 11))), ([0, 2, 1, 2], list(range(1, 11)))],
+                      space="sequential prefix of <= 2 {push, pop} x operation A in {push, pop, unblock_pop} with operation B in {push, pop, unblock_pop} of another thread injected in front of A's k-th mutex "
+                            "acquisition (k = 1..3; beyond A's last acquisition = after A), then draining",
+                      data='all pushed values symbolic and pairwise distinct', bounds='two overlapping operations, interleaved at lock-region granularity (sound for accesses made under the lock: C03 lock discipline)',
+                      outside='three or more overlapping operations; pre-emption inside a critical section'))
     return units
